@@ -2,7 +2,7 @@
     handler was OBSERVED to do (no proofs here).  The theorems in Decor/Proofs.v show that every
     behaviour of the model is accepted; the check evaluates the same functions on the behaviour
     of the implementation. *)
-From WM Require Import Base.Prelude Message.Model Decor.Model.
+From WM Require Import Base.Prelude Message.Model Decor.Model Decor.Heap.
 
 (** ** decidable equalities *)
 Definition delay_eqb (a b : delay) : bool := Z.eqb (d_sec a) (d_sec b) && Z.eqb (d_dur a) (d_dur b).
@@ -97,6 +97,27 @@ Definition call_ok (st : list pdec) (c : pobs) : bool :=
          end
      end.
 
+(** a batch that contains the same object more than once: every layer works on the shared
+    object once per POSITION (Decor/Heap.v).  The acceptor then demands what stays true as coded:
+    same objects before and after; at most one call of the wrapped publisher, and that call gets the
+    same objects in the same order on the same topic, as they are after the call; its answer comes
+    back unchanged; without a call the result is an error *)
+Fixpoint nodupb (l : list N) : bool :=
+  match l with [] => true | x :: r => negb (existsb (N.eqb x) r) && nodupb r end.
+Definition has_dup (ms : list pmsg) : bool := negb (nodupb (map pm_id ms)).
+
+Definition call_ok_dup (c : pobs) : bool :=
+  same_objects (c_before c) (c_after c)
+  && match inner_calls (c_ev c) with
+     | [] => match c_res c with Some _ => true | None => false end
+     | [(t, b)] => N.eqb t (c_topic c) && same_objects (c_before c) b
+                   && optN_eqb (c_res c) (c_answer c) && list_eqb pmsg_eqb b (c_after c)
+     | _ => false
+     end.
+
+Definition call_ok_any (st : list pdec) (c : pobs) : bool :=
+  if has_dup (c_before c) then call_ok_dup c else call_ok st c.
+
 (** the publish observations the property prescribes for a sequence of calls: one per call that
     reaches a metrics layer with a non-empty batch whose first object was not counted before *)
 Definition spec_pub_obs (st : list pdec) (cs : list pobs) : list plabel :=
@@ -108,6 +129,11 @@ Definition spec_pub_obs (st : list pdec) (cs : list pobs) : list plabel :=
 
 Definition pub_monitor (st : list pdec) (cs : list pobs) (tab : list (plabel * nat)) : bool :=
   forallb (call_ok st) cs && counts_agree plabel_eqb tab (spec_pub_obs st cs).
+
+(** the acceptor the check runs: [call_ok] for ordinary batches, [call_ok_dup] for batches with a
+    repeated object *)
+Definition pub_monitor_any (st : list pdec) (cs : list pobs) (tab : list (plabel * nat)) : bool :=
+  forallb (call_ok_any st) cs && counts_agree plabel_eqb tab (spec_pub_obs st cs).
 
 (** ** subscriber side *)
 Definition slabel := (N * N * bool)%type.
@@ -208,4 +234,15 @@ Fixpoint pobs_run (st : list pdec) (s : pstate) (calls : list pcall) : list pobs
       let o := publish st (ps_script s) (pc_topic c) b in
       PObs (pc_topic c) b (po_ev o) (hd None (ps_script s)) (po_res o) (po_msgs o)
       :: pobs_run st (pstep st s c) cs
+  end.
+
+(** the observation records of an in-place model run (Decor/Heap.v) *)
+Fixpoint pobs_run_h (st : list pdec) (s : pstate) (calls : list pcall) : list pobs :=
+  match calls with
+  | [] => []
+  | c :: cs =>
+      let o := publish_h st (ps_script s) (pc_topic c) (pc_batch c) (ps_heap s) in
+      PObs (pc_topic c) (hreads (ps_heap s) (pc_batch c)) (ho_ev o) (hd None (ps_script s)) (ho_res o)
+           (hreads (ho_heap o) (pc_batch c))
+      :: pobs_run_h st (pstep_h st s c) cs
   end.
